@@ -108,11 +108,12 @@ Definition conv_datetime (o : oracles) (v : jval) : result :=
   | JStr s => if isoparse_ok o s then Ok (Some {| code := s_isoparse_open ++ py_repr s ++ [41]; raw := v |}) else Err
   | _ => Err
   end.
-(* UUID: the text is interpolated raw between single quotes *)
+(* UUID: python_code = "UUID(" + repr(value) + ")"  (uuid.py since the fix "emit UUID defaults through repr") *)
+Definition s_uuid_call : str := [85;85;73;68;40].                           (* UUID( *)
 Definition conv_uuid (o : oracles) (v : jval) : result :=
   match v with
   | JNull => Ok None
-  | JStr s => if uuid_ok o s then Ok (Some {| code := s_uuid_open ++ s ++ s_uuid_close; raw := v |}) else Err
+  | JStr s => if uuid_ok o s then Ok (Some {| code := s_uuid_call ++ py_repr s ++ [41]; raw := v |}) else Err
   | _ => Err
   end.
 Definition conv_none (v : jval) : result :=
